@@ -231,6 +231,50 @@ func init() {
 			})
 			okNew = iB >= 0 && iN == iB+1 && iIf == iN+1 && nSave == 1 && nAssign == 1
 		}
+		// the lazy refresh (doLazyUpdate) stores only a response that was not in the copied context (F17): in the function
+		// literal that runs the rest of the chain, `rBefore := qCtx.R()` is the statement immediately before
+		// `err := next.ExecNext(ctx, qCtx)`, `r := qCtx.R()` is immediately followed by `if r != nil && rBefore != r {
+		// saveRespToCache(...) ...`, the only saveRespToCache of doLazyUpdate; rBefore is assigned nowhere else
+		lu := ex.fn("plugin/executable/cache/cache.go", "Cache", "doLazyUpdate")
+		okLazy := false
+		if lu != nil {
+			ast.Inspect(lu.Body, func(n ast.Node) bool {
+				fl, ok := n.(*ast.FuncLit)
+				if !ok || okLazy {
+					return true
+				}
+				var top []string
+				for _, st := range fl.Body.List {
+					top = append(top, ex.str(st))
+				}
+				iB, iN, iR, iIf := indexOf(top, "rBefore := qCtx.R()"), indexOf(top, "err := next.ExecNext(ctx, qCtx)"), indexOf(top, "r := qCtx.R()"), -1
+				for i, t := range top {
+					if strings.HasPrefix(t, "if r != nil && rBefore != r { saveRespToCache(msgKey, r, c.backend, c.args.LazyCacheTTL)") {
+						iIf = i
+					}
+				}
+				okLazy = iB >= 0 && iN == iB+1 && iR > iN && iIf == iR+1
+				return true
+			})
+			nSave, nAssign := 0, 0
+			for _, cs := range ex.calls(lu.Body) {
+				if cs == "saveRespToCache" {
+					nSave++
+				}
+			}
+			ast.Inspect(lu.Body, func(n ast.Node) bool {
+				if a, ok := n.(*ast.AssignStmt); ok {
+					for _, l := range a.Lhs {
+						if ex.str(l) == "rBefore" {
+							nAssign++
+						}
+					}
+				}
+				return true
+			})
+			okLazy = okLazy && nSave == 1 && nAssign == 1
+		}
+		ex.setBool("c03LazyUpdateStoresOnlyNewResponse", okLazy, lu != nil, "cache.doLazyUpdate: rBefore := qCtx.R() immediately before next.ExecNext in the refresh; the only saveRespToCache of doLazyUpdate under `r != nil && rBefore != r`")
 		ex.setBool("c03CacheStoresOnlyNewResponse", okNew, ce != nil, "cache.Exec: rBefore := qCtx.R() immediately before next.ExecNext; the only saveRespToCache of Exec under `r != nil && rBefore != r`")
 		ex.setBool("c03CacheStoreCopiesQuestion", okCopyQ, cn != nil, "cache copyNoOpt: the stored message's Question slice is allocated (make + copy), the only assignment to it")
 		ex.setBool("c03UdpUnpackInReadLoop", okUDP, shapeUDP, "ServeUDP: the loop unpacks (*rb)[:n] into a fresh message before `go`; the handler goroutine (last statement of the loop body) refers to neither rb nor ob")
